@@ -459,7 +459,7 @@ class Ctx:
         os.makedirs(EVIDENCE, exist_ok=True)
         os.makedirs(REPLAYS, exist_ok=True)
         for f in os.listdir(REPLAYS):
-            if f.startswith(prop + "_"):
+            if f.startswith(prop + "_") and not (replay and os.path.abspath(replay) == os.path.join(REPLAYS, f)):
                 os.remove(os.path.join(REPLAYS, f))
 
     @property
